@@ -41,13 +41,38 @@ pub fn compile_job(job: &J) -> J {
 /// child's own canonical text and constant indices by the constant's value. Positions and the
 /// numbering of nodes therefore do not appear.
 pub fn canonical_ast(src: &str) -> Result<String, String> {
+    canonical_ast_with(src, false)
+}
+
+/// `cosmetic`: additionally see through grouping parentheses (`Nested`) and blocks holding a single
+/// expression (`then x` against an indented `x`), which change layout but not the program.
+pub fn canonical_ast_with(src: &str, cosmetic: bool) -> Result<String, String> {
     let ast = Parser::parse(src).map_err(|e| e.to_string())?;
     let nodes: Vec<String> = ast.nodes().iter().map(|n| format!("{:?}", n.node)).collect();
+    let through: Vec<Option<usize>> = ast
+        .nodes()
+        .iter()
+        .map(|n| match &n.node {
+            koto_parser::Node::Nested(inner) if cosmetic => Some(u32::from(*inner) as usize),
+            koto_parser::Node::Block(xs) if cosmetic && xs.len() == 1 => Some(u32::from(xs[0]) as usize),
+            _ => None,
+        })
+        .collect();
     let consts = ast.constants();
-    fn expand(i: usize, nodes: &[String], consts: &koto_parser::ConstantPool, depth: usize, out: &mut String) {
+    fn expand(
+        i: usize,
+        nodes: &[String],
+        through: &[Option<usize>],
+        consts: &koto_parser::ConstantPool,
+        depth: usize,
+        out: &mut String,
+    ) {
         if depth > 400 {
             out.push_str("<deep>");
             return;
+        }
+        if let Some(inner) = through[i] {
+            return expand(inner, nodes, through, consts, depth + 1, out);
         }
         let s = &nodes[i];
         let bytes = s.as_bytes();
@@ -60,7 +85,7 @@ pub fn canonical_ast(src: &str) -> Result<String, String> {
                 let n: usize = s[open..close].trim().parse().unwrap();
                 if is_ast {
                     out.push('<');
-                    expand(n, nodes, consts, depth + 1, out);
+                    expand(n, nodes, through, consts, depth + 1, out);
                     out.push('>');
                 } else {
                     match consts.get(n) {
@@ -80,7 +105,7 @@ pub fn canonical_ast(src: &str) -> Result<String, String> {
     }
     let mut out = String::new();
     if let Some(entry) = ast.entry_point() {
-        expand(u32::from(entry) as usize, &nodes, consts, 0, &mut out);
+        expand(u32::from(entry) as usize, &nodes, &through, consts, 0, &mut out);
     }
     Ok(out)
 }
@@ -109,13 +134,80 @@ fn options(job: &J) -> FormatOptions {
     }
 }
 
+/// Unusual shapes of the syntax tree that the formatter is known to mishandle (known finding WS):
+/// the driver keeps inputs with such shapes out of the domain it decides.
+fn odd_shapes(src: &str) -> Vec<&'static str> {
+    use koto_parser::{ChainNode, Node};
+    let mut out = Vec::new();
+    let Ok(ast) = Parser::parse(src) else { return out };
+    let is_range = |i: koto_parser::AstIndex| {
+        matches!(
+            ast.node(i).node,
+            Node::Range { .. } | Node::RangeFrom { .. } | Node::RangeTo { .. } | Node::RangeFull
+        )
+    };
+    let bare_call = |i: koto_parser::AstIndex| {
+        // a chain that contains a call without parentheses
+        let mut cur = Some(i);
+        while let Some(c) = cur {
+            match &ast.node(c).node {
+                Node::Chain((ChainNode::Call { with_parens: false, .. }, _)) => return true,
+                Node::Chain((_, next)) => cur = *next,
+                _ => return false,
+            }
+        }
+        false
+    };
+    for n in ast.nodes() {
+        match &n.node {
+            Node::Range { start, end, .. } if is_range(*start) || is_range(*end) => out.push("nested-range"),
+            Node::RangeFrom { start } if is_range(*start) => out.push("nested-range"),
+            Node::RangeTo { end, .. } if is_range(*end) => out.push("nested-range"),
+            Node::Tuple { elements, parentheses: false } if elements.iter().any(|e| bare_call(*e)) => {
+                out.push("bare-tuple-of-bare-call")
+            }
+            _ => {}
+        }
+    }
+    // a comma that is not followed by an expression: `f a, , b`, `f a, - b`, `f a, and b`
+    {
+        use koto_lexer::Token as T;
+        let toks: Vec<T> = koto_lexer::Lexer::new(src).map(|t| t.token).collect();
+        for (i, t) in toks.iter().enumerate() {
+            if *t != T::Comma {
+                continue;
+            }
+            let mut k = i + 1;
+            while k < toks.len() && toks[k].is_whitespace() {
+                k += 1;
+            }
+            let odd = match toks.get(k) {
+                Some(
+                    T::Comma | T::And | T::Or | T::Add | T::Multiply | T::Divide | T::Remainder | T::Power | T::Equal
+                    | T::NotEqual | T::Greater | T::GreaterOrEqual | T::Less | T::LessOrEqual | T::Arrow | T::Assign
+                    | T::AddAssign | T::SubtractAssign | T::MultiplyAssign | T::DivideAssign | T::RemainderAssign
+                    | T::PowerAssign | T::Range | T::RangeInclusive | T::Dot | T::As | T::In | T::Then | T::Else,
+                ) => true,
+                Some(T::Subtract) => matches!(toks.get(k + 1), Some(T::Whitespace | T::NewLine)),
+                _ => false,
+            };
+            if odd {
+                out.push("comma-without-expression");
+            }
+        }
+    }
+    out.sort();
+    out.dedup();
+    out
+}
+
 /// job: {id, src, options...} -> {status, text, text2 (format of the output), canon_in, canon_out}
 pub fn format_job(job: &J) -> J {
     let id = job.get("id").cloned().unwrap_or(J::Null);
     let src = job.get("src").and_then(|v| v.as_str()).unwrap_or("").to_string();
     let job = job.clone();
     guard(id, move || {
-        let canon_in = match canonical_ast(&src) {
+        let canon_in = match canonical_ast_with(&src, true) {
             Ok(c) => c,
             Err(e) => return json!({"status": "parse_error", "err_msg": e}),
         };
@@ -123,10 +215,13 @@ pub fn format_job(job: &J) -> J {
             Ok(t) => t,
             Err(e) => return json!({"status": "format_error", "err_msg": e.to_string()}),
         };
-        let canon_out = canonical_ast(&text);
+        let canon_out = canonical_ast_with(&text, true);
         let text2 = koto_format::format(&text, options(&job)).map_err(|e| e.to_string());
+        let max_width = text.lines().map(unicode_width::UnicodeWidthStr::width).max().unwrap_or(0);
         json!({
             "status": "ok",
+            "max_width": max_width,
+            "odd_shapes": odd_shapes(&src),
             "text": text,
             "canon_in": canon_in,
             "canon_out": canon_out.clone().ok(),
